@@ -158,8 +158,7 @@ pub struct I64C;
 impl common::Constraint for I64C {
     const TAG: Tag = Tag::DEFAULT_INTEGER;
 }
-impl numbers::Constraint<i64> for I64C {}
-impl numbers::Constraint<u64> for I64C {}
+impl<T: numbers::Number> numbers::Constraint<T> for I64C {}
 
 /// INTEGER TLV through BasicWriter/BasicReader for all i64 and all u64
 #[kani::proof]
@@ -181,4 +180,39 @@ fn der_number_tlv_roundtrip() {
     assert_eq!(r.read_number::<u64, I64C>().ok(), Some(u));
     assert_eq!(r.into_inner().len(), 0);
     std::mem::forget(buf);
+}
+
+
+fn narrow_rt<T: numbers::Number + PartialEq + kani::Arbitrary>() {
+    let v: T = kani::any();
+    let mut w = BasicWriter::from(Vec::<u8>::new());
+    w.write_number::<T, I64C>(v).unwrap();
+    let buf = w.into_inner();
+    let mut r = BasicReader::from(&buf[..]);
+    match r.read_number::<T, I64C>() {
+        Ok(back) => assert!(back == v),
+        Err(_) => panic!("a number written by the DER writer is not read back"),
+    }
+    assert_eq!(r.into_inner().len(), 0);
+    std::mem::forget(buf);
+}
+
+/// INTEGER TLV for every value of the narrow Rust integer types the generator uses (they are widened to i64 by the writer)
+#[kani::proof]
+#[kani::unwind(12)]
+fn der_number_narrow_roundtrip() {
+    narrow_rt::<i8>();
+    narrow_rt::<u8>();
+    narrow_rt::<i16>();
+    narrow_rt::<u16>();
+    narrow_rt::<i32>();
+    narrow_rt::<u32>();
+}
+
+/// quick-tier part of the narrow-width round trip: every i8 and u8
+#[kani::proof]
+#[kani::unwind(12)]
+fn der_number_octet_roundtrip() {
+    narrow_rt::<i8>();
+    narrow_rt::<u8>();
 }
